@@ -76,6 +76,10 @@ def copies_are_independent(model, res, c, R):
                     interp.extern['hx:copy:' + label] = fn
                     return Builtin('hx:copy:' + label)
                 interp.call(interp.get_method(p, 'on'), [Const('e'), cb('F')])
+                interp.call(interp.get_method(p, 'on'), [Const('f'), cb('OTHER-NAME')])
+                once_ = interp.get_method(p, 'once')
+                if once_ is not None:
+                    interp.call(once_, [Const('e'), cb('ONCE')])
                 sv = interp.get_method(p, 'set_variable')
                 if sv is not None:
                     interp.call(sv, [Const('V'), Const(1)])
@@ -86,6 +90,27 @@ def copies_are_independent(model, res, c, R):
                 if q is p:
                     st.events.append(('same-object',))
                     return Const(None)
+                # the engines: a grammar parser object of the copy that parses with the very LALR engine the original built still
+                # reduces through the original's actions (ply binds them to the object that built the tables)
+                for a_, v_ in q.attrs.items():
+                    pv_ = p.attrs.get(a_)
+                    if isinstance(v_, Obj) and isinstance(pv_, Obj) and v_ is not pv_:
+                        for ya in c.cg.yacc_attrs:
+                            if ya in v_.attrs and v_.attrs.get(ya) is pv_.attrs.get(ya) and not isinstance(v_.attrs.get(ya), Const):
+                                st.events.append(('shared-engine', a_, ya))
+                    elif isinstance(v_, Obj) and v_ is pv_ and any(cc is c.grammar.gcls for _, cc in model.mro(v_.cls.module, v_.cls.node)) \
+                            if isinstance(v_, Obj) and v_.cls.module is not None else False:
+                        st.events.append(('shared-engine', a_, 'the grammar parser itself'))
+                # what was registered before the copy is delivered on the copy under its own names, and a pending once-listener of the
+                # original is not spent by the copy
+                if direction == 'copy-then-register-on-copy':
+                    st.events.append(('emit-on-copy-first',))
+                    interp.call(interp.get_method(q, 'emit'), [Const('e'), Const('x')])
+                    st.events.append(('emit-other-name-on-copy',))
+                    interp.call(interp.get_method(q, 'emit'), [Const('f'), Const('x')])
+                    st.events.append(('emit-on-original-after',))
+                    interp.call(interp.get_method(p, 'emit'), [Const('e'), Const('x')])
+                    st.events.append(('end-of-carry-over',))
                 a, b = (q, p) if direction == 'copy-then-register-on-copy' else (p, q)
                 interp.call(interp.get_method(a, 'on'), [Const('e'), cb('G')])
                 sv = interp.get_method(a, 'set_variable')
@@ -117,6 +142,25 @@ def copies_are_independent(model, res, c, R):
                 if ('same-object',) in evs:
                     bad.append('the "copy" is the parser itself')
                     continue
+                for e in evs:
+                    if e[0] == 'shared-engine':
+                        bad.append('the copy parses with the LALR engine the original built (%s.%s is the same object): its grammar actions '
+                                   'still call the original parser' % (e[1], e[2]))
+                if ('emit-on-copy-first',) in evs and ('end-of-carry-over',) in evs:
+                    seg1 = evs[evs.index(('emit-on-copy-first',)) + 1:evs.index(('emit-other-name-on-copy',))]
+                    seg1b = evs[evs.index(('emit-other-name-on-copy',)) + 1:evs.index(('emit-on-original-after',))]
+                    if ('called', 'F') in seg1b or ('called', 'ONCE') in seg1b:
+                        bad.append('a listener carried over to the copy is called by an emit of another event name')
+                    seg2 = evs[evs.index(('emit-on-original-after',)) + 1:evs.index(('end-of-carry-over',))]
+                    if ('called', 'OTHER-NAME') in seg1:
+                        bad.append('a listener carried over from another event name is called by an emit of this name on the copy')
+                    carried = [e for e in seg1 if e[0] == 'called']
+                    if carried and ('called', 'F') not in seg1:
+                        bad.append('listeners are carried over, but not under the name they were subscribed to')
+                    if ('called', 'ONCE') in seg1 and ('called', 'ONCE') not in seg2:
+                        bad.append('a pending once-listener of the original is spent by an emit on the copy')
+                    if ('called', 'F') not in seg2:
+                        bad.append('an emit on the copy unsubscribes a listener of the original')
                 if ('emit-on-other',) not in evs:
                     continue
                 after = evs[evs.index(('emit-on-other',)) + 1:]
